@@ -148,6 +148,7 @@ Definition np_outer (u v : val) (w : world) : res (val * world) :=
   | _, _ => Stuck "outer" end.
 Fixpoint vsum (l : list val) (w : world) : res (val * world) :=
   match l with [] => Ok (VInt 0, w) | x :: r => do rw <- vsum r w; do_binop Add x (fst rw) (snd rw) end.
+Definition vsum_l (l : list val) (w : world) : res (val * world) := vsum l w.
 (* a.dot(b): vector.vector -> scalar, matrix.vector -> vector *)
 Definition np_dot (a b : val) (w : world) : res (val * world) :=
   match a, b with
@@ -240,6 +241,9 @@ Definition builtin (name : string) (args : list val) (kws : list (string * val))
   | "np.exp" => Some (num1 xexp args w)
   | "np.sqrt" | "math.sqrt" => Some (match args with [a] => map1 3 m_sqrt a w | _ => Exc "TypeError" end)
   | "np.outer" => Some (match args with [u; v] => np_outer u v w | _ => Exc "TypeError" end)
+  | "np.sum" | "sum" => Some (match args with [a] => do l <- as_list a; vsum_l l w | _ => Exc "TypeError" end)
+  | "np.zeros_like" => Some (pure_ (match args with [a] => do l <- as_list a; Ok (VList (map (fun _ => VNum (Fin 0)) l)) | _ => Exc "TypeError" end) w)
+  | "np.ones_like" => Some (pure_ (match args with [a] => do l <- as_list a; Ok (VList (map (fun _ => VNum (Fin 1)) l)) | _ => Exc "TypeError" end) w)
   | "np.nan_to_num" => Some (num1 xnan_to_num args w)
   | "np.isfinite" => Some (match args with [a] => match to_x a with Some x => Ok (VBool (xisfinite x), w) | None => Stuck "isfinite" end | _ => Exc "TypeError" end)
   | "copy.deepcopy" | "np.array" | "float" => Some (match args with a :: _ => Ok (a, w) | _ => Exc "TypeError" end)
@@ -401,6 +405,7 @@ Definition exec_stmt (tl : string -> string -> option oracle)
       end
   | SReturn (Some e) => do vw <- ev e ρ w; Ok (OReturn (fst vw), snd vw)
   | SRaise k => Exc k
+  | SAssert c => do cw <- ev c ρ w; do b <- m_truthy (fst cw) (snd cw); if fst b then Ok (ONormal ρ, snd b) else Exc "AssertionError"
   | STry body handler =>
       match ex body ρ w with
       | Ok ow => Ok ow
